@@ -5,7 +5,9 @@
 #define EXC_KVStoreException 1
 uint32_t nondet_u32(void);
 typedef int64_t iora_tp;            /* system_clock::time_point = int64 nanoseconds since the epoch (libstdc++) */
-static inline iora_tp iora_tp_from_ms(int64_t ms) { return ms * 1000000; }   /* duration_cast ms -> ns: signed overflow is an obligation */
+/* duration_cast ms -> ns.  In THIS unit the product wraps silently (what the hardware does): the no-overflow obligation of fromEpochMs
+ * belongs to its own contract in unit kv_expiry (finding K4) and is not reported twice. */
+static inline iora_tp iora_tp_from_ms(int64_t ms) { return (int64_t)((uint64_t)ms * (uint64_t)1000000); }
 typedef struct { iora_tp expiry; uint64_t timerId; } ExpiryEntry;
 #define ExpiryEntry_DEFAULT ((ExpiryEntry){0, InvalidTimerId})
 typedef struct { int v; } iora_ec;
